@@ -250,6 +250,18 @@ def _struct_truth(t, facts):
                 return True
         if f[0] == "builtin" and f[1] in ("tuple", "list") and len(t[2]) == 1:
             return truth(t[2][0], facts)
+        if (f[0] == "attr" and f[2] == "format" and f[1][0] == "const") or (f[0] == "attr" and f[2] == "join"):
+            # a template in another spelling ("{}:{}".format(a, b)): non-empty literal text makes it truthy
+            from .strtpl import flatten
+            parts = flatten(t)
+            if parts != [("val", t)]:
+                if any(p[0] == "lit" and p[1] for p in parts) or any(p[0] == "fmt" for p in parts):
+                    return True
+    if tag == "binop" and t[1] == "Mod" and t[2][0] == "const" and isinstance(t[2][1], str):
+        from .strtpl import flatten
+        parts = flatten(t)
+        if parts != [("val", t)] and (any(p[0] == "lit" and p[1] for p in parts) or any(p[0] == "fmt" for p in parts)):
+            return True
     if tag == "mut":
         if t[2] in ("append", "insert", "add"):
             return True
@@ -363,12 +375,20 @@ def _truth_key(k, facts):
             for (fk, fv) in _eq_facts(l, facts):
                 if fv:
                     return fk[1] is None
+            # identity is transitive: `x is y` known and `y is None` known (the chained spelling `x is y is None`)
+            for fk, fv in facts.items():
+                if fv is True and fk[0] == "cmp" and fk[1] == "Is" and l in (fk[2], fk[3]) and fk[3] != NONE:
+                    other = fk[3] if fk[2] == l else fk[2]
+                    if other != l and facts.get(("cmp", "Is", other, NONE)) is True:
+                        return True
             return None
         if op == "Is" and l == r:
             return True
         if op == "Eq":
             if l == r:
                 return True
+            if ("cmp", "Eq", r, l) in facts:
+                return facts[("cmp", "Eq", r, l)]      # equality reads the same either way round
             if r[0] == "const":
                 # x not in (a, b, ...) known  =>  x != a ;  x in (a,) known => x == a
                 for fk, fv in facts.items():
@@ -1006,12 +1026,22 @@ class Analyzer:
         return falls
 
     def s_Try(self, st, s, j):
+        eafp = getattr(st, "_eafp", False)
+        if eafp is False:
+            eafp = st._eafp = self._eafp_lookup(st)
+        if eafp is not None:
+            return self.exec_stmt(eafp, [s], j)
         htypes = tuple(unparse(h.type) if h.type is not None else "BaseException" for h in st.handlers)
         c = ("try", htypes, bool(st.finalbody))
         r0, x0 = len(self.res.returns), len(self.res.raises)
         lj = {"break": [], "continue": []}
         falls = self.exec_block(st.body, [s.with_ctx(c)], lj)
         falls = [self._pop_ctx(x, c) for x in falls]
+        # EAFP emptiness test: `try: <expr with x[0] / x[-1], no calls> except IndexError: ...` - the handler runs exactly when
+        # x is empty, the statement completes exactly when it is not
+        probe = self._index_probe(st, s)
+        if probe is not None:
+            falls = [y for y in (assume(x, probe, True) for x in falls) if y is not None]
         if st.orelse:
             falls = self.exec_block(st.orelse, falls, lj)
         out = list(falls)
@@ -1036,6 +1066,10 @@ class Analyzer:
             if h.name:
                 self._new_n += 1
                 hs.env[self._k(h.name)] = ("exc", unparse(h.type) if h.type is not None else "BaseException", self._new_n)
+            if probe is not None and isinstance(h.type, ast.Name) and h.type.id == "IndexError":
+                hs = assume(hs, probe, False)
+                if hs is None:
+                    continue
             hf = self.exec_block(h.body, [hs], lj)
             out.extend(self._pop_ctx(x, hs.ctx[-1]) for x in hf)
         if st.finalbody:
@@ -1050,6 +1084,101 @@ class Analyzer:
         j["break"].extend(lj["break"])
         j["continue"].extend(lj["continue"])
         return out
+
+    def _truth_table(self, base, idx, s):
+        """TABLE[bool(a), b == c] for a module-level dict display whose keys are tuples of True/False covering every combination:
+        one path per feasible combination, with the entry as a constant. -> [(state, value term)] or None."""
+        import itertools
+        def cond_of(t):
+            if t[0] == "call" and t[1] == ("builtin", "bool") and len(t[2]) == 1 and not t[3]:
+                return t[2][0]
+            if t[0] == "cmp" or (t[0] == "unop" and t[1] == "Not") or t[0] == "boolop":
+                return t
+            return None
+        conds = [cond_of(x) for x in idx[1]]
+        if any(c is None for c in conds) or base[0] != "global" or base[1] not in self.model.modules:
+            return None
+        r = self.model.resolve_global(base[1], base[2])
+        if not r or r[0] != "value" or len(r[3]) != 1 or not isinstance(getattr(r[3][0], "value", None), ast.Dict):
+            return None
+        table = {}
+        d = r[3][0].value
+        for kn, vn in zip(d.keys, d.values):
+            if not (isinstance(kn, ast.Tuple) and all(isinstance(x, ast.Constant) and type(x.value) is bool for x in kn.elts)
+                    and isinstance(vn, ast.Constant) and type(vn.value) in (str, int)):
+                return None
+            table[tuple(x.value for x in kn.elts)] = vn.value
+        combos = list(itertools.product((False, True), repeat=len(conds)))
+        if set(table) != set(combos):
+            return None
+        out = []
+        for combo in combos:
+            cur = s
+            for c, v in zip(conds, combo):
+                cur = assume(cur, c, v) if cur is not None else None
+            if cur is not None:
+                out.append((cur, ("const", table[combo])))
+        return out
+
+    def _eafp_lookup(self, st):
+        """`try: return D[k]` / `except KeyError: return v` (or the same with an assignment to one name) for a module-level dict
+        display D is `D.get(k, v)`: the rewritten statement, or None."""
+        if len(st.body) != 1 or len(st.handlers) != 1 or st.orelse or st.finalbody:
+            return None
+        h = st.handlers[0]
+        if not (isinstance(h.type, ast.Name) and h.type.id == "KeyError" and h.name is None and len(h.body) == 1):
+            return None
+        b, hb = st.body[0], h.body[0]
+        if isinstance(b, ast.Return) and isinstance(hb, ast.Return):
+            look, dflt, build = b.value, hb.value, lambda call: ast.Return(value=call)
+        elif isinstance(b, ast.Assign) and isinstance(hb, ast.Assign) and len(b.targets) == 1 and len(hb.targets) == 1 and \
+                isinstance(b.targets[0], ast.Name) and isinstance(hb.targets[0], ast.Name) and b.targets[0].id == hb.targets[0].id:
+            look, dflt, build = b.value, hb.value, lambda call: ast.Assign(targets=[b.targets[0]], value=call)
+        else:
+            return None
+        if not (isinstance(look, ast.Subscript) and isinstance(look.value, ast.Name)) or dflt is None:
+            return None
+        if any(isinstance(n, (ast.Call, ast.Subscript)) for n in ast.walk(look.slice)) or \
+                any(isinstance(n, (ast.Call, ast.Subscript)) for n in ast.walk(dflt)):
+            return None
+        r = self.model.resolve_global(self.fi.module, look.value.id)
+        if not r or r[0] != "value" or len(r[3]) != 1 or not isinstance(getattr(r[3][0], "value", None), ast.Dict):
+            return None
+        if self._k(look.value.id) in getattr(self, "_assigned_locals", ()):
+            return None
+        args = [look.slice] if isinstance(dflt, ast.Constant) and dflt.value is None else [look.slice, dflt]
+        call = ast.Call(func=ast.Attribute(value=look.value, attr="get", ctx=ast.Load()), args=args, keywords=[])
+        new = build(call)
+        ast.copy_location(new, st)
+        for n in ast.walk(new):
+            if not hasattr(n, "lineno"):
+                ast.copy_location(n, st)
+        ast.fix_missing_locations(new)
+        new._parent = getattr(st, "_parent", None)
+        return new
+
+    def _index_probe(self, st, s):
+        """The term whose emptiness a `try: ... x[0] ... except IndexError:` tests, or None when the try is not that idiom."""
+        if len(st.body) != 1 or not any(isinstance(h.type, ast.Name) and h.type.id == "IndexError" for h in st.handlers):
+            return None
+        body = st.body[0]
+        if not isinstance(body, (ast.Assign, ast.AnnAssign, ast.Expr, ast.Return)) or getattr(body, "value", None) is None:
+            return None
+        nodes = list(ast.walk(body.value))
+        if any(isinstance(n, (ast.Call, ast.Await, ast.Yield, ast.YieldFrom)) for n in nodes):
+            return None
+        subs = [n for n in nodes if isinstance(n, ast.Subscript)]
+        if len(subs) != 1 or not isinstance(subs[0].value, ast.Name):
+            return None
+        ix = subs[0].slice
+        if isinstance(ix, ast.UnaryOp) and isinstance(ix.op, ast.USub) and isinstance(ix.operand, ast.Constant):
+            val = -ix.operand.value if isinstance(ix.operand.value, int) else None
+        else:
+            val = ix.value if isinstance(ix, ast.Constant) and type(ix.value) is int else None
+        if val not in (0, -1):
+            return None
+        t = s.env.get(self._k(subs[0].value.id))
+        return t
 
     # -- assignment ----------------------------------------------------------
     def assign(self, tgt, v, s: State, st) -> State:
@@ -1068,7 +1197,10 @@ class Analyzer:
                 return s
             for i, e in enumerate(elts):
                 if isinstance(e, ast.Starred):
-                    s = self.assign(e.value, ("item", v, f"*{i}"), s, st)
+                    # `a, *rest = x` binds rest to x[1:], `a, *mid, z = x` binds mid to x[1:-1] (as a list: same elements)
+                    after = len(elts) - i - 1
+                    sl = ("slice", ("const", i) if i else NONE, ("const", -after) if after else NONE, NONE)
+                    s = self.assign(e.value, ("sub", v, sl), s, st)
                 elif star and i > star[0]:
                     s = self.assign(e, ("item", v, i - len(elts)), s, st)
                 else:
@@ -1115,7 +1247,10 @@ class Analyzer:
             for s1, ts in acc:
                 if isinstance(e, ast.Starred):
                     for s2, t in self.eval(e.value, s1):
-                        nxt.append((s2, ts + [("star", t)]))
+                        if t[0] in ("tuple", "list") and all(x[0] != "star" for x in t[1]):
+                            nxt.append((s2, ts + list(t[1])))       # *(a, b) is a, b
+                        else:
+                            nxt.append((s2, ts + [("star", t)]))
                 else:
                     for s2, t in self.eval(e, s1):
                         nxt.append((s2, ts + [t]))
@@ -1162,6 +1297,16 @@ class Analyzer:
                 lit = _literal_collection(v)
                 if lit is not None:
                     return ("const", lit)
+                # ... a tuple of builtin types (`_MULTI_VALUE_TYPES = (list, tuple)`, for isinstance) is that tuple
+                if isinstance(v, ast.Tuple) and v.elts and all(isinstance(x, ast.Name) for x in v.elts):
+                    import builtins as _b
+                    if all(isinstance(getattr(_b, x.id, None), type) and self.model.resolve_global(r[1], x.id) is None for x in v.elts):
+                        return ("tuple", tuple(("builtin", x.id) for x in v.elts))
+                # ... `_find = PATTERN.search` (a bound method of another module-level value) is that attribute
+                if isinstance(v, ast.Attribute) and isinstance(v.value, ast.Name) and v.value.id != name:
+                    r2 = self.model.resolve_global(r[1], v.value.id)
+                    if r2 and r2[0] == "value":
+                        return ("attr", ("global", r2[1], r2[2]), v.attr)
                 # ... and `_VALID_PORTS = range(65536)` is that range
                 if isinstance(v, ast.Call) and isinstance(v.func, ast.Name) and v.func.id == "range" and not v.keywords and \
                         1 <= len(v.args) <= 2 and all(isinstance(a, ast.Constant) and type(a.value) is int for a in v.args) and \
@@ -1195,6 +1340,30 @@ class Analyzer:
                 if base[0] in ("tuple", "list") and idx[0] == "const" and isinstance(idx[1], int) \
                         and all(x[0] != "star" for x in base[1]) and -len(base[1]) <= idx[1] < len(base[1]):
                     t = base[1][idx[1]]
+                # a two-entry constant table indexed by a truth value (`TABLE[x == 6]`, `TABLE[bool(sep)]`): one path per entry
+                rows = base[1] if base[0] == "const" and isinstance(base[1], tuple) and len(base[1]) == 2 else \
+                    (tuple(("term", x) for x in base[1]) if base[0] == "tuple" and len(base[1]) == 2 and all(x[0] != "star" for x in base[1]) else None)
+                cond = idx[2][0] if idx[0] == "call" and idx[1] == ("builtin", "bool") and len(idx[2]) == 1 and not idx[3] else \
+                    (idx if idx[0] == "cmp" or (idx[0] == "unop" and idx[1] == "Not") else None)
+                if rows is None and idx[0] == "tuple" and 1 <= len(idx[1]) <= 3:
+                    forks = self._truth_table(base, idx, s3)
+                    if forks:
+                        for s4, tv in forks:
+                            self.event("sub", e, s4, base=base, index=idx, value=tv)
+                            out.append((s4, tv))
+                        continue
+                if rows is not None and cond is not None:
+                    forked = False
+                    for val, row in ((False, rows[0]), (True, rows[1])):
+                        s4 = assume(s3, cond, val)
+                        if s4 is None:
+                            continue
+                        tv = row[1] if isinstance(row, tuple) and len(row) == 2 and row[0] == "term" else ("const", row)
+                        self.event("sub", e, s4, base=base, index=idx, value=tv)
+                        out.append((s4, tv))
+                        forked = True
+                    if forked:
+                        continue
                 self.event("sub", e, s3, base=base, index=idx, value=t)
                 out.append((s3, t))
         return out
@@ -1353,6 +1522,65 @@ class Analyzer:
                     return self._outer_name(n)
             return key
         return key
+
+    def _positionalise(self, f, args_t, kwargs):
+        """f(a, k=v) for a package function `def f(a, k)` is f(a, v): keyword arguments that name the next positional
+        parameters are moved into place, so that a call means the same term however it is spelled."""
+        if not kwargs or any(k is None for k, _v in kwargs) or any(a[0] == "star" for a in args_t):
+            return args_t, kwargs
+        if f[0] == "global" and f[1] in self.model.modules:
+            r = self.model.resolve_global(f[1], f[2])
+            if not r or r[0] not in ("func", "memo_alias"):
+                return args_t, kwargs
+            a = r[1].node.args
+            pos = [x.arg for x in a.posonlyargs + a.args]
+        elif f[0] == "attr" and f[1] in (("param", "self"), ("param", "cls")) and self.fi.cls and \
+                self.model.has_func(f"{self.fi.module}.{self.fi.cls}.{f[2]}"):
+            # a method of the same class called on self
+            m = self.model.func(f"{self.fi.module}.{self.fi.cls}.{f[2]}")
+            if m.kind not in ("method", "classmethod"):
+                return args_t, kwargs
+            a = m.node.args
+            pos = [x.arg for x in a.posonlyargs + a.args][1:]
+        else:
+            return args_t, kwargs
+        if a.vararg is not None or len(args_t) > len(pos):
+            return args_t, kwargs
+        kw = dict(kwargs)
+        out = list(args_t)
+        for name in pos[len(args_t):]:
+            if name in kw and name not in [x.arg for x in a.posonlyargs]:
+                out.append(kw.pop(name))
+            else:
+                break
+        rest = tuple((k, v) for k, v in kwargs if k in kw)
+        return tuple(out), rest
+
+    def _getter_object(self, f):
+        """("attr" | "item", names) when f is a module-level `operator.attrgetter(<literals>)` / `itemgetter(<literals>)` object."""
+        if f[0] != "global" or f[1] not in self.model.modules:
+            return None
+        r = self.model.resolve_global(f[1], f[2])
+        if not r or r[0] != "value" or len(r[3]) != 1 or not isinstance(getattr(r[3][0], "value", None), ast.Call):
+            return None
+        c = r[3][0].value
+        fn = c.func
+        name = fn.attr if isinstance(fn, ast.Attribute) else (fn.id if isinstance(fn, ast.Name) else None)
+        if name not in ("attrgetter", "itemgetter") or c.keywords or not c.args:
+            return None
+        if isinstance(fn, ast.Attribute):
+            if not (isinstance(fn.value, ast.Name) and self.model.resolve_global(r[1], fn.value.id) in (("ext", "operator", None),)):
+                mod = self.model.module(r[1]).imports.get(fn.value.id) if isinstance(fn.value, ast.Name) else None
+                if mod != ("operator", None):
+                    return None
+        else:
+            if self.model.module(r[1]).imports.get(name) != ("operator", name):
+                return None
+        if not all(isinstance(a, ast.Constant) and (type(a.value) is str if name == "attrgetter" else type(a.value) in (str, int)) for a in c.args):
+            return None
+        if name == "attrgetter" and any("." in a.value for a in c.args):
+            return None
+        return ("attr" if name == "attrgetter" else "item"), [a.value for a in c.args]
 
     def _through_partial(self, f, args_t, kwargs):
         """P(x, k=v) for a module-level `P = functools.partial(F, a, k0=v0)` is F(a, x, k0=v0, k=v)."""
@@ -1525,6 +1753,19 @@ class Analyzer:
                     kwargs = tuple((k.arg, v) for k, v in zip(e.keywords, kvs))
                     args_t = tuple(args)
                     f, args_t, kwargs = self._through_partial(f, args_t, kwargs)
+                    # a partial object built in place or held in a local: partial(F, a, k=v)(x) is F(a, x, k=v)
+                    if f[0] == "call" and f[1] == ("ext", "functools", "partial") and f[2] and all(x[0] != "star" for x in f[2]) and \
+                            all(k is not None for k, _v in f[3]):
+                        kw0 = dict(f[3])
+                        kw0.update(dict(kwargs))
+                        f, args_t, kwargs = f[2][0], tuple(f[2][1:]) + args_t, tuple(kw0.items())
+                    args_t, kwargs = self._positionalise(f, args_t, kwargs)
+                    # Class.method(obj, ...) is obj.method(...) for a plain method of a package class
+                    if f[0] == "attr" and f[1][0] == "global" and f[1][1] in self.model.modules and args_t and args_t[0][0] != "star":
+                        rc = self.model.resolve_global(f[1][1], f[1][2])
+                        if rc and rc[0] == "class" and self.model.has_func(f"{rc[1]}.{rc[2]}.{f[2]}") and \
+                                self.model.func(f"{rc[1]}.{rc[2]}.{f[2]}").kind == "method":
+                            f, args_t = ("attr", args_t[0], f[2]), args_t[1:]
                     opname = None
                     if f[0] == "attr" and f[1] == ("ext", "operator", None):
                         opname = f[2]
@@ -1533,6 +1774,33 @@ class Analyzer:
                     if opname in _OPERATOR_CMP and len(args_t) == 2 and not kwargs:
                         # operator.lt(a, b) is a < b
                         out.append((s3, ("cmp", _OPERATOR_CMP[opname], args_t[0], args_t[1])))
+                        continue
+                    if opname == "getitem" and len(args_t) == 2 and not kwargs:
+                        tv = ("sub", args_t[0], args_t[1])      # operator.getitem(a, k) is a[k]
+                        self.event("sub", e, s3, base=args_t[0], index=args_t[1], value=tv)
+                        out.append((s3, tv))
+                        continue
+                    if opname in ("truth", "not_") and len(args_t) == 1 and not kwargs:
+                        tv = ("call", ("builtin", "bool"), (args_t[0],), ())
+                        out.append((s3, tv if opname == "truth" else ("unop", "Not", args_t[0])))
+                        continue
+                    getter = self._getter_object(f)
+                    if getter is not None and len(args_t) == 1 and not kwargs:
+                        # G = operator.attrgetter("a", "b"); G(x) is (x.a, x.b)   (itemgetter likewise)
+                        kind_, names = getter
+                        if kind_ == "attr":
+                            vals = []
+                            s4 = s3
+                            for nm in names:
+                                hv = s4.heap.get((args_t[0], nm))
+                                tv = hv if hv is not None else ("attr", args_t[0], nm)
+                                self.event("attr", e, s4, obj=args_t[0], attr=nm, value=tv)
+                                vals.append(tv)
+                        else:
+                            vals = [("sub", args_t[0], ("const", nm)) for nm in names]
+                            for nm, tv in zip(names, vals):
+                                self.event("sub", e, s3, base=args_t[0], index=("const", nm), value=tv)
+                        out.append((s3, vals[0] if len(vals) == 1 else ("tuple", tuple(vals))))
                         continue
                     inl = self._inline_target(f)
                     if inl is not None:
@@ -1808,6 +2076,11 @@ def _literal_collection(v):
     wrap = None
     if isinstance(v, ast.Call) and isinstance(v.func, ast.Name) and v.func.id in ("frozenset", "tuple") and len(v.args) == 1 and not v.keywords:
         wrap, v = v.func.id, v.args[0]
+    if wrap is None and isinstance(v, ast.Tuple) and v.elts and any(isinstance(x, ast.Tuple) for x in v.elts):
+        # a table: tuple of tuples of literals (`_TEMPLATES = (("{0}", "{0}%{1}"), ("[{0}]", "[{0}%{1}]"))`)
+        rows = [_literal_collection(x) if isinstance(x, ast.Tuple) else (x.value if isinstance(x, ast.Constant) and type(x.value) in (str, int) else None)
+                for x in v.elts]
+        return None if any(r is None for r in rows) else tuple(rows)
     if isinstance(v, (ast.Tuple, ast.Set, ast.List)) and v.elts and \
             all(isinstance(x, ast.Constant) and type(x.value) in (str, int) for x in v.elts):
         vals = [x.value for x in v.elts]
